@@ -14,3 +14,105 @@ def run(root, pid, tier, seed, layer):
     if fn is None:
         return {"name": kind, "inconclusive": ["unknown layer kind %s" % kind]}
     return fn(root, pid, tier, seed, layer)
+
+
+# ---------------------------------------------------------------- Miri
+
+import re, concurrent.futures, signal
+
+HARNESS = lambda root: os.path.join(root, "harness")
+
+
+def _miri_env(root, seed, extra_flags=""):
+    e = dict(os.environ)
+    e["CARGO_NET_OFFLINE"] = "true"
+    e["CARGO_TARGET_DIR"] = os.path.join(root, ".build", "miri")
+    e["MIRIFLAGS"] = "-Zmiri-disable-isolation -Zmiri-tree-borrows -Zmiri-seed=%d %s" % (seed, extra_flags)
+    e.setdefault("CARGO_TERM_COLOR", "never")
+    return e
+
+
+def _miri_one(root, pid, mseed, vseed, scale, timeout, extra_flags):
+    cmd = ["cargo", "+nightly", "miri", "run", "--offline", "-q", "-p", "gxv-miri", "--", pid, str(vseed), str(scale)]
+    t0 = time.time()
+    try:
+        p = subprocess.run(cmd, cwd=HARNESS(root), env=_miri_env(root, mseed, extra_flags), stdout=subprocess.PIPE,
+                           stderr=subprocess.PIPE, text=True, timeout=timeout, start_new_session=True)
+        return mseed, p.returncode, p.stdout, p.stderr, time.time() - t0
+    except subprocess.TimeoutExpired as ex:
+        return mseed, "timeout", (ex.stdout or b"").decode() if isinstance(ex.stdout, bytes) else (ex.stdout or ""), "", time.time() - t0
+
+
+def layer_miri(root, pid, tier, seed, layer):
+    """Runs the pure in-memory part of a monitor under Miri (Tree Borrows, data-race detection on),
+    once per Miri seed (each seed = another schedule / allocation layout)."""
+    nseeds = layer.get("seeds_quick", 3) if tier == "quick" else layer.get("seeds_thorough", 24)
+    scale = layer.get("scale_quick", 1) if tier == "quick" else layer.get("scale_thorough", 2)
+    timeout = layer.get("timeout", 1500)
+    flags = layer.get("flags", "")
+    out = {"name": "miri", "coverage": {}, "violations": [], "inconclusive": [], "evaluations": 0}
+    results = []
+    # the first run also builds (cargo miri has no separate build command); the others then run in parallel
+    results.append(_miri_one(root, pid, seed * 1000, seed * 7919, scale, timeout + 1800, flags))
+    if results[0][1] not in (0, "timeout") and "Undefined Behavior" not in results[0][3] and "could not compile" in results[0][3]:
+        out["inconclusive"].append("miri build failed: " + results[0][3][-800:])
+        return out
+    with concurrent.futures.ThreadPoolExecutor(max_workers=min(8, max(1, nseeds - 1))) as ex:
+        futs = [ex.submit(_miri_one, root, pid, seed * 1000 + k, seed * 7919 + k, scale, timeout, flags) for k in range(1, nseeds)]
+        for f in futs:
+            results.append(f.result())
+    stats = []
+    clean = 0
+    os.makedirs(os.path.join(root, "replays", pid), exist_ok=True)
+    for mseed, rc, so, se, wall in results:
+        for line in so.splitlines():
+            if line.startswith("STATS "):
+                try:
+                    stats.append(json.loads(line[6:]))
+                except Exception:
+                    pass
+            elif line.startswith("VIOLATION "):
+                _, sig, what = line.split(" ", 2)
+                rp = os.path.join(root, "replays", pid, "miri-oracle-%d.json" % mseed)
+                json.dump({"property": pid, "layer": "miri", "miri_seed": mseed, "signature": sig, "what": what}, open(rp, "w"), indent=1)
+                out["violations"].append({"signature": sig, "what": what, "replay": rp, "count": 1})
+        if rc == "timeout":
+            out["inconclusive"].append("miri seed %d timed out after %ds" % (mseed, timeout))
+            continue
+        if "Undefined Behavior" in se or "error: unsupported operation" in se or (rc != 0 and "error" in se):
+            m = re.search(r"error: (Undefined Behavior: [^\n]*|[^\n]*)", se)
+            kind = m.group(1) if m else "miri error"
+            if kind.startswith("unsupported operation") or "unsupported operation" in kind:
+                out["inconclusive"].append("miri seed %d: %s" % (mseed, kind[:200]))
+                continue
+            kind_norm = re.sub(r"alloc\d+|<\d+>|0x[0-9a-f]+|thread `[^`]*`|\d+", "N", kind)[:120]
+            site = "?"
+            for sm in re.finditer(r"--> (/repo/[^\s:]+):(\d+):\d+", se):
+                site = "%s:%s" % (sm.group(1)[len("/repo/"):], sm.group(2))
+                break
+            sig = "miri|%s|%s" % (site, kind_norm)
+            rp = os.path.join(root, "replays", pid, "miri-%d.txt" % mseed)
+            open(rp, "w").write("MIRIFLAGS=%s\ncargo +nightly miri run -p gxv-miri -- %s\n\n%s" % (
+                _miri_env(root, mseed, flags)["MIRIFLAGS"], pid, se[-6000:]))
+            if not any(v["signature"] == sig for v in out["violations"]):
+                out["violations"].append({"signature": sig, "what": kind[:300], "replay": rp, "count": 1})
+            else:
+                for v in out["violations"]:
+                    if v["signature"] == sig:
+                        v["count"] += 1
+        elif rc == 0:
+            clean += 1
+        else:
+            out["inconclusive"].append("miri seed %d exited %s: %s" % (mseed, rc, se[-300:]))
+    agg = {"seeds_run": len(results), "seeds_clean": clean,
+           "flags": "-Zmiri-tree-borrows (data-race detector on, isolation off)"}
+    for key in ("runs", "items", "early_stops"):
+        if stats and key in stats[0]:
+            agg[key] = sum(s.get(key, 0) for s in stats)
+    if stats and "distinct_schedules" in stats[0]:
+        agg["distinct_schedules_per_seed"] = [s.get("distinct_schedules", 0) for s in stats]
+    if stats:
+        agg["per_seed_sample"] = stats[0]
+    out["coverage"] = agg
+    out["evaluations"] = agg.get("runs", 0)
+    return out
